@@ -46,3 +46,81 @@ package sqlite
 //@   loop 1 invariant 0 <= loopk && loopk <= 4 && len(loopx) == 4 && migrate.GvcExec.N == old(migrate.GvcExec.N) + loopk
 //@   loop 1 invariant (forall j int :: 0 <= j && j < loopk ==> migrate.GvcAt(migrate.GvcExec, old(migrate.GvcExec.N)+j) == loopx[j])
 //@   loop 1 invariant loopx[0] == "PRAGMA writable_schema = 1;" && loopx[1] == "DELETE FROM sqlite_master WHERE type IN ('table', 'view', 'index', 'trigger');" && loopx[2] == "PRAGMA writable_schema = 0;" && loopx[3] == "VACUUM;"
+
+// ---------------------------------------------------------------------------------------
+// C05 (narrow): SQLite table changes keep the rows.
+// (a) The in-place path (ALTER TABLE) is taken only when every change is of a kind that cannot
+//     lose a row or a column value: renames, index changes, and ADD COLUMN.
+// (b) The rebuild path copies, for every column of the new table that is neither generated nor
+//     newly added, the column's old values (by the same name, or by the old name of a rename):
+//     stated as the invariant of the loop that builds the INSERT ... SELECT column lists.
+
+//@ import "ariga.io/atlas/sql/internal/sqlx"
+//@ import "strings"
+//@ rec gvcInPlaceKind
+//@ spec func gvcInPlaceKind(c schema.Change) bool {
+//@ spec 	return GvcIs[*schema.RenameColumn](c) || GvcIs[*schema.RenameIndex](c) || GvcIs[*schema.DropIndex](c) ||
+//@ spec 		GvcIs[*schema.AddIndex](c) || GvcIs[*schema.AddColumn](c)
+//@ spec }
+//@ extern func strings.ToUpper(s string) (r string)
+//@   pure
+
+//@ func alterable(modify *schema.ModifyTable) (ok bool)
+//@   requires modify != nil
+//@   requires (forall c *schema.AddColumn :: c != nil ==> c.C != nil)
+//@   requires (forall i int :: 0 <= i && i < len(modify.Changes) && GvcIs[*schema.AddColumn](modify.Changes[i]) ==> modify.Changes[i].(*schema.AddColumn) != nil)
+//@   requires (forall c *schema.Column :: c != nil && GvcIs[*schema.Literal](c.Default) ==> c.Default.(*schema.Literal) != nil)
+//@   modifies struct(schema.GeneratedExpr)
+//@   ensures in-place-only-for-row-preserving-kinds: ok ==> (forall i int :: 0 <= i && i < len(modify.Changes) ==> gvcInPlaceKind(modify.Changes[i]))
+//@   loop 1 invariant (forall j int :: 0 <= j && j < loopk ==> gvcInPlaceKind(modify.Changes[j]))
+
+//@ spec func gvcGenerated(c *schema.Column) bool { return sqlx.SpecHasGen(c.Attrs) }
+// among the first k changes there is an ADD COLUMN of the column called n
+//@ rec gvcAnyAdds fuel
+//@ spec func gvcAnyAdds(changes []schema.Change, k int, n string) bool {
+//@ spec 	if k <= 0 {
+//@ spec 		return false
+//@ spec 	}
+//@ spec 	a, ok := changes[k-1].(*schema.AddColumn)
+//@ spec 	return (ok && a.C.Name == n) || gvcAnyAdds(changes, k-1, n)
+//@ spec }
+//@ rec gvcColChangeOK
+//@ spec func gvcColChangeOK(c schema.Change) bool {
+//@ spec 	return (!GvcIs[*schema.AddColumn](c) || (c.(*schema.AddColumn) != nil && c.(*schema.AddColumn).C != nil)) &&
+//@ spec 		(!GvcIs[*schema.DropColumn](c) || (c.(*schema.DropColumn) != nil && c.(*schema.DropColumn).C != nil)) &&
+//@ spec 		(!GvcIs[*schema.ModifyColumn](c) || (c.(*schema.ModifyColumn) != nil && c.(*schema.ModifyColumn).To != nil)) &&
+//@ spec 		(!GvcIs[*schema.RenameColumn](c) || (c.(*schema.RenameColumn) != nil && c.(*schema.RenameColumn).To != nil && c.(*schema.RenameColumn).From != nil))
+//@ spec }
+//@ spec func gvcHasName(names []string, n string) bool { return (some q int :: 0 <= q && q < len(names) && names[q] == n) }
+
+//@ func defaultValue(c *schema.Column) (v string, err error)
+//@   trusted
+//@ func identComma(c []string) (r string)
+//@   trusted
+//@   pure
+
+//@ func (s *state) copyRows(from *schema.Table, to *schema.Table, changes []schema.Change) (insert bool, err error)
+//@   requires s != nil && from != nil && to != nil
+//@   requires (forall p int :: 0 <= p && p < len(to.Columns) ==> to.Columns[p] != nil && to.Columns[p].Type != nil)
+//@   requires (forall c schema.Change :: gvcColChangeOK(c))
+//@   modifies everything
+//@   ensures rows-are-copied-if-a-column-survives: err == nil ==> (forall p int :: 0 <= p && p < len(to.Columns) &&
+//@           !gvcGenerated(to.Columns[p]) && !gvcAnyAdds(changes, len(changes), to.Columns[p].Name) ==> insert)
+//@   ensures no-copy-without-a-surviving-column: err == nil && insert ==> (exists p int :: 0 <= p && p < len(to.Columns) &&
+//@           !gvcGenerated(to.Columns[p]) && !gvcAnyAdds(changes, len(changes), to.Columns[p].Name))
+//@   loop 1 localwrites
+//@   loop 1 invariant (toC == nil || GvcFresh(toC)) && (fromC == nil || GvcFresh(fromC)) && len(toC) == len(fromC)
+//@   loop 1 invariant toC == nil || fromC == nil || GvcBase(toC) != GvcBase(fromC)
+//@   loop 1 invariant 0 <= loopk && loopk <= len(to.Columns)
+//@   loop 1 invariant GvcSameElems(to.Columns) && GvcSameElems(changes)
+//@   loop 1 invariant every-surviving-column-receives-its-old-values: (forall p int :: 0 <= p && p < loopk &&
+//@           !gvcGenerated(to.Columns[p]) && !gvcAnyAdds(changes, len(changes), to.Columns[p].Name) ==> gvcHasName(toC, to.Columns[p].Name))
+//@   loop 1 invariant (forall p int :: 0 <= p && p < loopk &&
+//@           !gvcGenerated(to.Columns[p]) && !gvcAnyAdds(changes, len(changes), to.Columns[p].Name) ==> len(toC) > 0)
+//@   loop 1 invariant len(toC) > 0 ==> (exists p int :: 0 <= p && p < loopk &&
+//@           !gvcGenerated(to.Columns[p]) && !gvcAnyAdds(changes, len(changes), to.Columns[p].Name))
+//@   loop 2 invariant 0 <= loopk && loopk <= len(changes)
+//@   loop 2 invariant gvcAnyAdds(changes, loopk, column.Name) == (change != nil && GvcIs[*schema.AddColumn](change))
+//@   loop 2 invariant GvcIs[*schema.ModifyColumn](change) ==> change.(*schema.ModifyColumn) != nil && change.(*schema.ModifyColumn).To != nil && change.(*schema.ModifyColumn).To.Name == column.Name
+//@   loop 2 invariant GvcIs[*schema.RenameColumn](change) ==> change.(*schema.RenameColumn) != nil && change.(*schema.RenameColumn).To != nil && change.(*schema.RenameColumn).From != nil && change.(*schema.RenameColumn).To.Name == column.Name
+//@   loop 2 invariant change == nil || GvcIs[*schema.AddColumn](change) || GvcIs[*schema.ModifyColumn](change) || GvcIs[*schema.RenameColumn](change)
